@@ -44,6 +44,9 @@ RFC5114_G = int(
     "5E2327CFEF98C582664B4C0F6CC41659", 16)
 
 DOMAIN, USER, PASSWORD = "VERIF", "alice", "Passw0rd!"
+import contextvars
+
+CURRENT_OP: contextvars.ContextVar = contextvars.ContextVar("verif_current_op", default=None)
 _NTLM_READY = False
 
 
@@ -328,6 +331,7 @@ class DC:
         self.epm_extra_towers: list[bytes] = []
         self.rng_later = None
         self.name_pad = 0
+        self.force_reply: t.Optional[t.Callable[[t.Any, dict], t.Optional[tuple]]] = None
 
     def add_root_key(self, rkid: uuid.UUID, info: RootKeyInfo, default: bool = True) -> None:
         self.root_keys[rkid] = info
@@ -356,8 +360,10 @@ class DC:
         P = ev.ec_mul(c, x, (c.gx, c.gy))
         return ecdh_key(curve, P[0], P[1])
 
-    def get_key(self, sd: bytes, rkid: t.Optional[uuid.UUID], l0: int, l1: int, l2: int) -> tuple[int, bytes, dict]:
-        """-> (hresult, envelope bytes, abstract description of the reply)."""
+    def get_key(self, sd: bytes, rkid: t.Optional[uuid.UUID], l0: int, l1: int, l2: int,
+                force: t.Optional[tuple] = None) -> tuple[int, bytes, dict]:
+        """-> (hresult, envelope bytes, abstract description of the reply).
+        force = (kind, (a, b)) lets a replay driver pick the reply a behaviour prescribes."""
         rk = rkid or self.default_rkid
         if rk not in self.root_keys:
             return 0x80070002, b"", {"kind": "error"}
@@ -370,14 +376,20 @@ class DC:
                 return 0x80070057, b"", {"kind": "error"}
             pl0, p1, p2 = l0, l1, l2
         ks = self.keyset(rk, sd, pl0)
-        if self.reply_kind == "pubkey":
+        kind = force[0] if force else self.reply_kind
+        if force and force[1] is not None and (l0, l1, l2) != (-1, -1, -1):
+            if tuple(force[1]) < (p1, p2) or (pl0 == cur[0] and tuple(force[1]) > (cur[1], cur[2])):
+                raise RuntimeError(f"MACHINERY: forced reply position {force[1]} not conforming for request {(p1, p2)}")
+        if kind in ("pubkey", "pub"):
             pub = self.public_key_for(info, ks.l2(p1, p2))
             env = group_key_envelope(1, pl0, p1, p2, rk, "SP800_108_CTR_HMAC", kdf_parameters(info.hash), info.secret_alg,
                                      self.secret_params(info), info.priv_len_bits, info.pub_len_bits,
                                      self.domain, self.forest, b"", pub)
             return 0, env, {"kind": "pubkey", "pos": [p1, p2], "l0": pl0}
         a, b = p1, p2
-        if self.reply_policy == "later" and (l0, l1, l2) != (-1, -1, -1):
+        if force and force[1] is not None and (l0, l1, l2) != (-1, -1, -1):
+            a, b = force[1]
+        elif self.reply_policy == "later" and (l0, l1, l2) != (-1, -1, -1):
             hi = (31, 31) if pl0 < cur[0] else (cur[1], cur[2])
             cand = [(x, y) for x in range(a, hi[0] + 1) for y in range(32) if (x, y) >= (a, b) and (x, y) <= hi]
             a, b = cand[(len(self.getkey_log) * 7 + 3) % len(cand)]
@@ -406,6 +418,7 @@ class Connection:
         self.auth_type = 0
         self.auth_level = 0
         self.mangle: t.Optional[t.Callable[[str, bytes, "Connection"], bytes]] = None  # adversary hook
+        self.tag: t.Any = None
         self.last_sealed_reply: t.Optional[bytes] = None
 
     def log(self, **ev_: t.Any) -> None:
@@ -573,9 +586,10 @@ class Connection:
                                    "transfer": [str(c["transfer"][0]), c["transfer"][1], c["transfer"][2]] if "transfer" in c else None}
                                   for c in vt["commands"]],
                      "ends_at_stub_end": vt["end"] == len(stub)}
-        hres, env, desc = self.dc.get_key(g["sd"], g["rkid"], g["l0"], g["l1"], g["l2"])
+        force = self.dc.force_reply(self, g) if self.dc.force_reply else None
+        hres, env, desc = self.dc.get_key(g["sd"], g["rkid"], g["l0"], g["l1"], g["l2"], force)
         ev_["reply"] = desc
-        self.dc.getkey_log.append({"sd": g["sd"], "rkid": g["rkid"], "l0": g["l0"], "l1": g["l1"], "l2": g["l2"], "reply": desc})
+        self.dc.getkey_log.append({"tag": self.tag, "sd": g["sd"], "rkid": g["rkid"], "l0": g["l0"], "l1": g["l1"], "l2": g["l2"], "reply": desc})
         self.log(**ev_)
         return self.sealed_response(h, rq["ctx"], get_key_response(env, hres), auth)
 
@@ -606,12 +620,14 @@ class Network:
         self.schedule: t.Optional[t.Callable[[int], int]] = None  # recv size chooser
         self.on_connection: t.Optional[t.Callable[[Connection], None]] = None
         self.gate: t.Optional[t.Callable[[Connection, bytes], t.Awaitable[None]]] = None  # async reply gate
+        self.close_gate: t.Optional[t.Callable[[Connection], t.Awaitable[None]]] = None
 
     def accept(self, host: str, port: int) -> Connection:
         self.nconn += 1
         self.connects.append((host, port))
         self.dc.transcript.append({"ev": "connect", "host": host, "port": port, "conn": self.nconn})
         c = Connection(self.dc, port, self.nconn)
+        c.tag = CURRENT_OP.get()
         if self.on_connection:
             self.on_connection(c)
         return c
@@ -715,7 +731,10 @@ class FakeWriter:
         self.conn.log(ev="close")
 
     async def wait_closed(self) -> None:
-        await asyncio.sleep(0)
+        if self.net.close_gate is not None:
+            await self.net.close_gate(self.conn)
+        else:
+            await asyncio.sleep(0)
 
     def get_extra_info(self, *a: t.Any, **k: t.Any) -> None:
         return None
